@@ -467,6 +467,8 @@ func TestC13(t *testing.T) {
 		{"p", false, "", nil}, {"p", true, "", nil}, {"p", true, "valXl", nil}, {"p", true, "a b", nil}, {"p", true, "é日本", nil},
 		{"1", false, "", nil}, {"1", false, "", []string{""}}, {"1", false, "", []string{"valXl", "z"}}, {"2", false, "", []string{"q"}},
 		{"10", false, "", []string{"1", "2", "3", "4", "5", "6", "7", "8", "9", "ten"}},
+		// positional parameters beyond every integer type
+		{"9223372036854775808", false, "", []string{"a"}}, {"18446744073709551616", false, "", nil}, {"99999999999999999999999", false, "", []string{"a", "b"}},
 		{"@", false, "", nil}, {"@", false, "", []string{"a b", "c"}}, {"@", false, "", []string{"valXl"}}, {"@", false, "", []string{""}}, {"@", false, "", []string{"", ""}}, {"@", false, "", []string{"", "c"}},
 		{"*", false, "", nil}, {"*", false, "", []string{"a b", "c"}}, {"*", false, "", []string{"valXl"}}, {"*", false, "", []string{""}}, {"*", false, "", []string{"", ""}}, {"*", false, "", []string{"", "c"}},
 		{"#", false, "", []string{"x", "y"}}, {"?", false, "", nil}, {"0", false, "", nil}, {"!", false, "", nil}, {"$", false, "", nil}, {"-", false, "", nil},
@@ -482,7 +484,7 @@ func TestC13(t *testing.T) {
 	}
 	patsets := [][]wAtom{
 		nil,
-		{{"lit", "X*"}}, {{"lit", "*X"}}, {{"sq", "*"}}, {{"var", "?l"}}, {{"dqvar", "?l"}}, {{"lit", "[a-v]"}}, {{"lit", "*"}}, {{"canary", ""}},
+		{{"lit", "X*"}}, {{"lit", "*X"}}, {{"sq", "*"}}, {{"var", "?l"}}, {{"dqvar", "?l"}}, {{"lit", "[a-v]"}}, {{"lit", "*"}}, {{"canary", ""}}, {{"lit", "l{1"}, {"sq", "}"}}, {{"lit", "{2"}, {"sq", "}"}}, {{"lit", "X.l"}},
 	}
 	type ifsv struct {
 		set bool
@@ -535,7 +537,7 @@ func TestC13(t *testing.T) {
 	)
 	prop := func(rt *rapid.T) {
 		var c c13Case
-		c.Param = rapid.SampledFrom([]string{"p", "p", "p", "1", "2", "@", "*", "#", "?", "0"}).Draw(rt, "param")
+		c.Param = rapid.SampledFrom([]string{"p", "p", "p", "1", "2", "@", "*", "#", "?", "0", "9223372036854775808", "18446744073709551616"}).Draw(rt, "param")
 		c.Set = rapid.Bool().Draw(rt, "set")
 		if c.Set {
 			c.Value = valGen.Draw(rt, "value")
@@ -549,9 +551,9 @@ func TestC13(t *testing.T) {
 				text := ""
 				switch kind {
 				case "lit":
-					text = rapid.SampledFrom([]string{"W", "x", "*", "?", "X*", "*l", "[a-z]", "é", ":", "a.b"}).Draw(rt, "lit")
+					text = rapid.SampledFrom([]string{"W", "x", "*", "?", "X*", "*l", "[a-z]", "é", ":", "a.b", "l{1", "{2", "a{1,", "a+", "^a"}).Draw(rt, "lit")
 				case "sq":
-					text = rapid.SampledFrom([]string{"W Q", "*", " ", "", "a:b", "é"}).Draw(rt, "sq")
+					text = rapid.SampledFrom([]string{"W Q", "*", " ", "", "a:b", "é", "}", "}"}).Draw(rt, "sq")
 				case "var", "dqvar":
 					text = valGen.Draw(rt, "wv")
 				}
